@@ -409,6 +409,14 @@ impl<'a> Builder<'a> {
                     }
                 }))
             }
+            Stage::RichIndex => erase(s.rich_map({
+                let mut i = 0i64;
+                move |mut r: Rec| {
+                    r.v = r.v.wrapping_mul(31).wrapping_add(i);
+                    i += 1;
+                    r
+                }
+            })),
             Stage::Shuffle => erase(s.shuffle()),
             Stage::Broadcast => erase(s.broadcast()),
             Stage::Replicate(r) => erase(s.replication(r.to_engine())),
@@ -682,6 +690,7 @@ pub fn stage_name(st: &Stage) -> &'static str {
         Stage::Filter(_) => "filter",
         Stage::FlatMap(_) => "flat_map",
         Stage::FilterMap(..) => "filter_map",
+        Stage::RichIndex => "rich_map",
         Stage::Shuffle => "shuffle",
         Stage::Broadcast => "broadcast",
         Stage::Replicate(_) => "replication",
